@@ -260,6 +260,115 @@ def register(OPS, drv):
         finally:
             w.close()
 
+    def op_c05_crawl_all(job):
+        """Crawl a world from / in every protocol following EVERY local link a page of the server contains — the entry rows
+        and whatever the renderer adds around them (header and footer navigation, icons, form actions) —, under the handler
+        list of job["config"].  -> pages like the shared crawler's, plus "via": row | page (a link outside the entry rows)"""
+        import os
+        import re
+        import sys
+        import html as _html
+        import urllib.parse as _up
+        here = os.path.dirname(os.path.abspath(__file__))
+        if here not in sys.path:
+            sys.path.insert(0, here)
+        import gen
+        import validators as V
+
+        HTML_LISTING = b'<!DOCTYPE HTML PUBLIC "-//W3C//DTD HTML 4.0 Transitional//EN" "http://www.w3.org/TR/REC-html40/loose.dtd">\n<HTML><HEAD><TITLE>Gopher'
+        ATTR = re.compile(r'''<[A-Za-z][^<>]*?\s(href|action|src)\s*=\s*(?:"([^"]*)"|'([^']*)'|([^\s>]+))''', re.I | re.S)
+
+        def fetch(w, proto, sel_bytes, search=None):
+            data, tls = gen.request_bytes(proto, sel_bytes.decode("utf-8", "surrogateescape"), search=search)
+            return data, drv.serve_once(w.config, data, tls=tls)
+
+        def links_of(proto, resp):
+            """-> [(selector bytes, advertised type or None, via)]"""
+            try:
+                v = V.validate(proto, resp)
+            except V.Malformed:
+                return []
+            if v["kind"] != "success":
+                return []
+            body = v["body"]
+            out = []
+            if proto in ("gopher", "sgopher", "gopherplus", "sgopherplus"):
+                try:
+                    menu = V.parse_gopher_menu(body)
+                except V.Malformed:
+                    return []
+                for m in menu:
+                    if m["type"] != "i" and m["host"] == b"gopher.example" and m["port"] == drv.SERVER_PORT \
+                            and not m["selector"].startswith((b"URL:", b"/URL:")):
+                        out.append((m["selector"], m["type"], "row"))
+            elif proto in ("http", "https", "wap"):
+                ctype = b"".join(hv for hn, hv in v.get("headers", []) if hn.lower() == "content-type")
+                if proto == "wap":
+                    if b"text/vnd.wap.wml" not in ctype:
+                        return []
+                elif not (b"text/html" in ctype and body.startswith(HTML_LISTING)):
+                    return []      # a document of the site's author, not a page the server composed
+                rows = set()
+                if proto != "wap":
+                    for row in V.html_rows(body):
+                        href = row["href"] or row["form"]
+                        if V.is_local_href(href):
+                            rows.add(href)
+                            out.append((V.unquote_to_selector(href), "7" if row["form"] else None, "row"))
+                for m in ATTR.finditer(body.decode("utf-8", "surrogateescape")):
+                    href = _html.unescape(next(g for g in m.groups()[1:] if g is not None))
+                    if proto == "wap":
+                        if not href.startswith("/wap"):
+                            continue
+                        href = href[4:] or "/"
+                    if V.is_local_href(href) and href not in rows:
+                        out.append((V.unquote_to_selector(href), "7" if m.group(1).lower() == "action" or "searchrequest" in href else None,
+                                    "page" if proto != "wap" else "row"))
+            else:
+                for l in V.gemtext_links(body):
+                    if V.is_local_href(l["href"]):
+                        out.append((V.unquote_to_selector(l["href"]), "7" if l.get("search") else None, "row"))
+            return out
+
+        w = drv.World(job)
+        try:
+            pages = []
+            for proto in job["protos"]:
+                seen = set()
+                queue = [(b"/", "1", None, "row")]
+                n = 0
+                while queue and n < job.get("max_pages", 300):
+                    sel, typ, parent, via = queue.pop(0)
+                    if sel in seen:
+                        continue
+                    seen.add(sel)
+                    n += 1
+                    data, r = fetch(w, proto, sel, search="needle" if typ == "7" else None)
+                    out = drv.s2b(r["out"])
+                    if proto == "gemini":
+                        for _hop in range(3):
+                            if out[:2] in (b"10", b"11"):
+                                data, r = fetch(w, proto, sel, search="needle")
+                            elif out[:2] in (b"30", b"31"):
+                                tgt = out.split(b"\r\n")[0][3:].decode("ascii", "surrogateescape")
+                                cur = data.decode("ascii", "surrogateescape").strip()
+                                joined = _up.urljoin("http" + cur[len("gemini"):], tgt)
+                                data = ("gemini" + joined[len("http"):]).encode("ascii", "surrogateescape") + b"\r\n"
+                                r = drv.serve_once(w.config, data, tls=True)
+                            else:
+                                break
+                            out = drv.s2b(r["out"])
+                    pages.append({"proto": proto, "selector": drv.b2s(sel), "type": typ, "parent": parent, "via": via,
+                                  "request": drv.b2s(data), "out": r["out"], "exc": r["exc"], "log": r["log"][-3:]})
+                    if typ in ("1", None):
+                        for s2, t2, via2 in links_of(proto, out):
+                            if s2 not in seen:
+                                queue.append((s2, t2, drv.b2s(sel), via2))
+            return {"root": w.root, "pages": pages}
+        finally:
+            w.close()
+
+    OPS["c05_crawl_all"] = op_c05_crawl_all
     OPS["c05_folders"] = op_c05_folders
     OPS["k05_route"] = op_k05_route
     OPS["k05_urlparse"] = op_k05_urlparse
